@@ -1024,6 +1024,8 @@ func (v *AllScopeVariables) Add(s context.Scope, name string, val value.Value) e
 	}
 
 	v.ctx.Request.Header.Add(match[1], val.String())
+
+	v.ctx.Request.Assign(match[1])
 	return nil
 }
 
